@@ -32,7 +32,7 @@ THEOREMS = [
     "sweep_legacy_refuted", "sweep_legacy_refuted_no_input_repeats", "empty_diagram_legacy_refuted",
     "hom_deg_selects", "hom_deg_out_of_range", "trailing_inf_removed", "empty_diagram_no_depths",
 ]
-RULE = ("exact family: bars with integer / half-integer endpoints (scaled by 2^k, k in -20..20, translated), "
+RULE = ("exact family: bars with integer / half-integer endpoints (scaled by 2^k, k in -40..30, translated), "
         "1-8 bars, classes {single, nested, overlapping, disjoint, touching, equal_births, equal_deaths, repeated, "
         "collision (bars the sweep itself creates collide with input bars), random, scale, trailing_inf, homdeg, "
         "homdeg_oob, empty, repr (int array / nested list input), translated (offsets 2^20..2^30, 1e6, 1e7, 1e9), "
@@ -261,7 +261,7 @@ def _one_case(rng, cls=None, big=False):
         t = rng.choice(OFFSETS)
         bars = [[b + t, d + t] for b, d in bars]
     elif cls == "scale":
-        s = 2.0 ** rng.choice([-20, -7, -1, 1, 6, 20])
+        s = 2.0 ** rng.choice([-40, -30, -20, -7, -1, 1, 6, 20, 30])   # below / above np.isclose's atol 1e-8
         t = float(rng.choice([0, 0, -3, -40, 17]))
         bars = [[(b + t) * s, (d + t) * s] for b, d in bars]
     elif rng.random() < 0.15:
